@@ -71,6 +71,8 @@ class Block:
         self.attrs = []
         self.stmts = {}
         self.exit = []
+        self.tailfrom = None
+        self.addparams = []
         self.loopstart = {}
         self.loopend = {}       # anchors of statements to drop (logged)
 
@@ -166,6 +168,10 @@ def parse_template(path):
             section = cur.entry
         elif word == 'exit':
             section = cur.exit
+        elif word == 'tailfrom':
+            cur.tailfrom = BT.findall(rest)[0]
+        elif word == 'addparam':
+            cur.addparams.append(rest.strip())
         elif word == 'stmt':
             section = cur.stmts.setdefault(int(rest.split()[0]), [])
         elif word == 'loopstart':
@@ -413,6 +419,7 @@ def extract_fn(repo, blk, meta, mode):
     if blk.nowhere and where:
         log.append(('R7', 'where clause dropped: %s' % where, src_line))
         where = ''
+    ptexts = ptexts + list(blk.addparams)
     emitted = kv.get('as', kv['name'])
     name = kv.get('id', emitted)      # reporting name (two impls of one trait method need distinct ids)
     sigt = 'fn %s%s(%s)' % (emitted, generics, ', '.join(ptexts))
@@ -423,6 +430,26 @@ def extract_fn(repo, blk, meta, mode):
         sigt += ' ' + where
     # body with insertions
     body = item[bo:bc + 1]   # includes braces
+    if blk.tailfrom:
+        # R32: only the TAIL of the function is verified: the top-level statements before the anchor are dropped and the tail is checked for
+        # ANY values of the locals they define (declared as extra parameters by `addparam`) and any state of `self`
+        atoks = [t.text for t in lex(blk.tailfrom) if t.kind not in ('ws', 'comment')]
+        starts = []
+        k = X._next_sig(body, 0)
+        while k < len(body) - 1:
+            starts.append(k)
+            e = X.stmt_end(body, k)
+            k = X._next_sig(body, e)
+        cut = None
+        for st in starts:
+            sig = [t.text for t in body[st:] if t.kind not in ('ws', 'comment')][:len(atoks)]
+            if sig == atoks:
+                cut = st
+                break
+        if cut is None:
+            raise X.LostAnchor('%s::%s: tail anchor `%s` not found among the top-level statements' % (rel, kv['name'], blk.tailfrom))
+        log.append(('R32', 'only the tail from `%s` is verified: %d top-level statement(s) before it dropped; their locals enter as parameters: %s' % (blk.tailfrom, starts.index(cut), '; '.join(blk.addparams)), src_line))
+        body = [body[0]] + body[cut:]
     loops = X.find_loops(body, 1, len(body) - 1)
     inserts = {}   # token index in body -> list of (text, origin) inserted BEFORE that token
 
